@@ -45,8 +45,13 @@ def runicBalances (inv : List WOut) : List Input := runicFrom 0 inv
 /-- `input_rune_balances[r]` after the inputs `sel` were accumulated -/
 def total (sel : List Input) (r : Nat) : Nat := (sel.map (fun i => bal i.2 r)).sum
 
+/-- distinct elements, first occurrences dropped -/
+def dedup : List Nat → List Nat
+  | [] => []
+  | a :: l => if a ∈ dedup l then dedup l else a :: dedup l
+
 /-- keys of `input_rune_balances` -/
-def names (sel : List Input) : List Nat := (sel.flatMap (fun i => i.2.map (·.1))).eraseDups
+def names (sel : List Input) : List Nat := dedup (sel.flatMap (fun i => i.2.map (·.1)))
 
 inductive OutK where
   /-- the OP_RETURN carrying the runestone -/
